@@ -34,6 +34,7 @@ func c16(c *Ctx) {
 	r.Decides("the four migration limits are registered only in the retryable filter chain, each under its own skip gate; a job is failed only by the non-retryable chain; the duplicate-job filter is evaluated before any other filter")
 	r.Decides("the four limit filters count running jobs and (while arbitrating) pending jobs that passed arbitration - the same phase contexts in all four; a job is marked passed only after the API update succeeded")
 	r.Decides("the waiting collection and the passed-jobs set are accessed only under their mutex")
+	r.Decides("no pod is accepted by the arbitrator before the duplicate-job filter ran; the per-workload unavailable count sees inactive replicas")
 	r.Declines("the counts themselves: jobs per node/namespace/workload/global per round, unavailable replicas arithmetic")
 
 	// ---- LOCK on counters
